@@ -221,3 +221,16 @@ Section Ring.
     destruct (Hsame j ltac:(lia)) as (j' & Hj' & <-). apply in_map. apply in_seq. lia.
   Qed.
 End Ring.
+
+(* non-vacuity: a ring of five residues with arbitrary keys, mixed adjacency orders, rooted at 7 *)
+Definition ex_ring_adj : Z -> list Z :=
+  adj_of [(7, [3; 11]); (3, [7; 20]); (20, [5; 3]); (5, [20; 11]); (11, [5; 7])].
+Definition ex_ring_node (k : nat) : Z := nth k [7; 11; 5; 20; 3] 0.
+Example ex_ring_is_ring : is_ring 5 ex_ring_adj ex_ring_node.
+Proof.
+  split.
+  - intros i j Hi Hj. destruct i as [|[|[|[|[|i]]]]]; try lia; destruct j as [|[|[|[|[|j]]]]]; try lia; cbn; intros H; try reflexivity; discriminate.
+  - intros k Hk. destruct k as [|[|[|[|[|k]]]]]; try lia; cbn; auto.
+Qed.
+Example ex_ring_pair : cycle_pair ex_ring_adj 5 7 = Some (7, 11) /\ tree_edges ex_ring_adj 5 7 = [(7, 3); (3, 20); (20, 5); (5, 11)].
+Proof. vm_compute. split; reflexivity. Qed.
